@@ -886,11 +886,58 @@ func Eq(a, b *Term) *Term {
 		if a.op == OpZExt && b.op == OpZExt && a.args[0].sort == b.args[0].sort {
 			return Eq(a.args[0], b.args[0])
 		}
+		if a.op == OpAdd && b.op == OpAdd && a.args[1] == b.args[1] && a.args[1].IsConst() {
+			return Eq(a.args[0], b.args[0])
+		}
 	}
 	if a.id > b.id {
 		a, b = b, a
 	}
 	return TS.mk(OpEq, BoolSort, 0, "", 0, 0, a, b)
+}
+
+
+// stripAdd removes a common / one-sided constant addend from both sides of a
+// comparison when neither side can wrap around (decided from bounds).
+func stripAdd(a, b *Term) (*Term, *Term, bool) {
+	w := a.W()
+	split := func(t *Term) (*Term, uint64, bool) {
+		if t.op == OpAdd {
+			if c, ok := t.args[1].ConstVal(); ok {
+				_, h := t.args[0].Bounds()
+				if s, carry := bits.Add64(h, c, 0); carry == 0 && s <= mask(w) {
+					return t.args[0], c, true
+				}
+				return nil, 0, false
+			}
+		}
+		if c, ok := t.ConstVal(); ok {
+			return nil, c, true
+		}
+		return t, 0, true
+	}
+	xa, ca, ok1 := split(a)
+	xb, cb, ok2 := split(b)
+	if !ok1 || !ok2 || (ca == 0 && cb == 0) {
+		return a, b, false
+	}
+	m := ca
+	if cb < m {
+		m = cb
+	}
+	if m == 0 {
+		return a, b, false
+	}
+	mk := func(x *Term, c uint64) *Term {
+		if x == nil {
+			return Const(w, c)
+		}
+		if c == 0 {
+			return x
+		}
+		return TS.mk(OpAdd, x.sort, 0, "", 0, 0, x, Const(w, c))
+	}
+	return mk(xa, ca-m), mk(xb, cb-m), true
 }
 
 func ULt(a, b *Term) *Term {
@@ -907,6 +954,9 @@ func ULt(a, b *Term) *Term {
 	}
 	if a.op == OpZExt && b.op == OpZExt && a.args[0].sort == b.args[0].sort {
 		return ULt(a.args[0], b.args[0])
+	}
+	if x, y, ok := stripAdd(a, b); ok {
+		return ULt(x, y)
 	}
 	if c, ok := b.ConstVal(); ok && a.op == OpZExt && c <= mask(a.args[0].W()) {
 		return ULt(a.args[0], Const(a.args[0].W(), c))
@@ -931,6 +981,9 @@ func ULe(a, b *Term) *Term {
 	}
 	if a.op == OpZExt && b.op == OpZExt && a.args[0].sort == b.args[0].sort {
 		return ULe(a.args[0], b.args[0])
+	}
+	if x, y, ok := stripAdd(a, b); ok {
+		return ULe(x, y)
 	}
 	if c, ok := b.ConstVal(); ok && a.op == OpZExt && c <= mask(a.args[0].W()) {
 		return ULe(a.args[0], Const(a.args[0].W(), c))
